@@ -14,7 +14,7 @@ TOL_MODEL = 4e-3   # model graph vs implementation graph (two strengths, each wi
 RULE = ("for each metric name accepted by UMAP.fit on dense data (keys of umap.distances.named_distances and of pynndescent's registry as imported by umap_.py, "
         "minus those needing special data, listed in the evidence) with kwds for minkowski / wminkowski / seuclidean / mahalanobis: random data n 20..40 whose rows have "
         "pairwise-distinct distances (binary metrics: distinct among the k+2 nearest); fit(metric=m) vs fit(metric='precomputed') on the registry function's float64 distances "
-        "(same support, abs 1e-4), both vs graph_of_dist evaluated in Coq (abs 4e-3), sample permutation (abs 1e-5), distances x {1e-3,13,1e4} (abs 2e-3), "
+        "(same support, abs 1e-4), both vs graph_of_dist evaluated in Coq (abs 4e-3), sample permutation (abs 1e-5), distances x {1e-3,13,1e4,2^-27,2^27} (abs 2e-3), "
         "Euclidean feature permutation / translation (abs 1e-4), data rescaling for homogeneous metrics.  quick: euclidean (twice) + 17 names drawn with the seed (one with kwds, one binary, one on positive data guaranteed); thorough: all. "
         "Non-trivial: every case (each relates at least two fits); tags record kwds / data class / relation kinds.")
 
@@ -196,7 +196,7 @@ def relations(ctx, rng, npr, case, reg):
             ctx.fail("UMAP.fit:sample_permutation", "%s fit of the permuted samples is not the permuted graph at %s (%s, max abs difference %.3g), metric %s"
                      % (what, w, "support" if not same else "weights", md, m), desc_of(case, relation="sample_permutation_" + what, perm=perm))
     # rescaling all distances
-    for c in (1e-3, 13.0, 1e4):
+    for c in (1e-3, 13.0, 1e4, 2.0 ** -27, 2.0 ** 27):   # the powers of two reach the limits of the bandwidth search budget
         try:
             gs = fit_graph(D * c, "precomputed", k, r, lc)
         except Exception as e:
